@@ -190,6 +190,7 @@ INVOKES = [
     ('mkBn', (1,)), ('mkBn', ('argA', 1)), ('mkBn', ()), ('mkBn', ('x',)),
     ('closure_a', ()), ('closure_a', ('argA',)), ('closure_n', (1,)), ('closure_n', ()),
     ('B2', (1,)),
+    ('mkNA', (1, 'argA')), ('mkNA', (1,)),
 ]
 NEW_DEFS = [
     {'A': ('path', 'mkA2')},
